@@ -3,7 +3,7 @@ package validate
 import (
 	"cmp"
 	"math"
-	"net"
+	"net/netip"
 	"net/url"
 	"regexp"
 	"slices"
@@ -298,23 +298,31 @@ func IPv6(value any) bool { return matchString(value, regex.IPv6) }
 
 // CIDR reports whether the string is valid CIDR notation.
 // The version parameter filters by IP version: 0 for any, 4 for IPv4, 6 for IPv6.
+//
+// The prefix is parsed with netip.ParsePrefix: the prefix length is a canonical
+// decimal within the range of the address family, zones are not allowed, and an
+// IPv4-mapped IPv6 address such as "::ffff:1.2.3.4/120" counts as IPv6, so that
+// the accepted strings are the ones the exported regex.CIDRv4 / regex.CIDRv6
+// patterns describe.
 func CIDR(value any, version int) bool {
 	str, ok := reflectx.StringVal(value)
 	if !ok {
 		return false
 	}
-	if !strings.Contains(str, "/") {
-		return false
-	}
-	_, ipnet, err := net.ParseCIDR(str)
+	prefix, err := netip.ParsePrefix(str)
 	if err != nil {
 		return false
 	}
-	if version == 0 {
+	switch version {
+	case 0:
 		return true
+	case 4:
+		return prefix.Addr().Is4()
+	case 6:
+		return prefix.Addr().Is6()
+	default:
+		return false
 	}
-	isV4 := ipnet.IP.To4() != nil
-	return (version == 4 && isV4) || (version == 6 && !isV4)
 }
 
 // CIDRv4 reports whether the string is a valid IPv4 CIDR notation.
